@@ -226,8 +226,8 @@ def chacha_contracts(variant='rw'):
     return out
 
 
-def chacha_init_contract():
-    return Contract(CH + 'ChaCha20Cipher.__init__', params={'key': 'buffer', 'nonce': 'buffer'},
+def chacha_init_contract(types=('buffer', 'buffer')):
+    return Contract(CH + 'ChaCha20Cipher.__init__', params={'key': types[0], 'nonce': types[1]},
                     requires=['len(key) == 32', 'len(nonce) == 8 or len(nonce) == 12 or len(nonce) == 24'],
                     raises={},
                     ensures={'nonce': 'self.nonce == bytes(nonce) and isinstance(self.nonce, bytes)',
@@ -347,7 +347,7 @@ def chacha_lemma_contracts():
 
 # ------------------------------------------------------------------------------------------------ registry / units
 
-def registry(what='chacha', variant='rw', state=None):
+def registry(what='chacha', variant='rw', state=None, types=('buffer', 'buffer')):
     reg = base_registry()
     rawapi.install_glue(reg)
     native_classes(reg)
@@ -356,7 +356,7 @@ def registry(what='chacha', variant='rw', state=None):
         install_chacha(reg)
         chacha_class(reg, empty=(variant == 'init'), state=state)
         if variant == 'init':
-            reg.add(chacha_init_contract())
+            reg.add(chacha_init_contract(types))
         elif variant == 'new':
             c = chacha_init_contract()
             del c.ensures['destructor']
@@ -417,6 +417,9 @@ def units(prop, tier):
         out.append(pyvc_unit(prop, 'salsa20.new', lambda: registry('salsa', 'new'), [SA + 'new']))
         out.append(pyvc_unit(prop, 'arc4.init', lambda: registry('arc4', 'init'), [R4 + '__init__'], weight=2))
     if prop in ('C02', 'C17'):
-        out.append(pyvc_unit(prop, 'chacha20.init', lambda: registry('chacha', 'init'), [q + '__init__'], weight=2))
+        # buffer types of key x nonce: every type of each parameter in the quick tier, the full product in the thorough tier
+        combos = [('bytes', 'buffer'), ('bytearray|memoryview', 'bytes')] if tier == 'quick' else [('bytes', 'buffer'), ('bytearray', 'buffer'), ('memoryview', 'buffer')]
+        for i, tp in enumerate(combos):
+            out.append(pyvc_unit(prop, 'chacha20.init.types%d' % i, lambda tp=tp: registry('chacha', 'init', types=tp), [q + '__init__'], weight=2))
         out.append(pyvc_unit(prop, 'chacha20.new', lambda: registry('chacha', 'new'), [CH + 'new'], weight=3))
     return out
